@@ -28,6 +28,8 @@ pub struct Node {
     pub path: Arc<Vec<String>>,
     /// replayable form of the path
     pub trace: Arc<Vec<Value>>,
+    /// headers of the sealed states on the honest segment leading here (reset by a jump), oldest first
+    pub lineage: Arc<Vec<Header>>,
 }
 
 #[derive(Clone, Debug)]
@@ -99,7 +101,17 @@ impl Node {
         p.push(a.label());
         let mut t = (*self.trace).clone();
         t.push(a.json());
-        Node { real, model, path: Arc::new(p), trace: Arc::new(t) }
+        let mut lineage = self.lineage.clone();
+        match (a, &real) {
+            (Action::Seal(_), Real::Sealed(s)) => {
+                let mut l = (*lineage).clone();
+                l.push(s.header());
+                lineage = Arc::new(l);
+            }
+            (Action::Jump(_), Real::Sealed(s)) => lineage = Arc::new(vec![s.header()]),
+            _ => {}
+        }
+        Node { real, model, path: Arc::new(p), trace: Arc::new(t), lineage }
     }
     pub fn replay_json(&self, next: Option<&Action>) -> Value {
         let mut t = (*self.trace).clone();
@@ -1021,6 +1033,19 @@ pub fn bfs(
     actions: &(dyn Fn(&Node) -> Vec<Action> + Sync),
     visit: &(dyn Fn(&Node) + Sync),
 ) -> SearchStats {
+    bfs_with(eng, roots, max_depth, max_states, actions, visit, &|_p: &Node, _a: &Action, _c: &Node| {})
+}
+
+/// Like `bfs`, with a callback on every generated successor (before de-duplication).
+pub fn bfs_with(
+    eng: &Engine,
+    roots: Vec<Node>,
+    max_depth: usize,
+    max_states: usize,
+    actions: &(dyn Fn(&Node) -> Vec<Action> + Sync),
+    visit: &(dyn Fn(&Node) + Sync),
+    on_successor: &(dyn Fn(&Node, &Action, &Node) + Sync),
+) -> SearchStats {
     let mut seen: HashSet<[u8; 32]> = HashSet::new();
     let mut frontier: Vec<Node> = vec![];
     for r in roots {
@@ -1045,6 +1070,7 @@ pub fn bfs(
                 for a in &acts {
                     t += 1;
                     if let StepOut::Next(c) = eng.step(n, a) {
+                        on_successor(n, a, &c);
                         let k = c.key();
                         out.push((c, k));
                     }
